@@ -1218,7 +1218,7 @@ class SchemaValidator:
                 ]
 
             # if there's a path, resolve it from the variable's type
-            if len(path) > 1:
+            if len(from_path) > 1:
                 try:
                     thread_variable_type = self._resolve_type_from_variable_path(
                         var_type_details=from_var_type_details,
